@@ -30,25 +30,6 @@ for N in "${NAMES[@]}"; do
   echo "| $N | $P | yes | $RC | $V | ${KEY:-} |" >> $OUT/rows
   echo "$N: $P exit=$RC $V $KEY"
 done
-python3 - $OUT/rows $PARTIAL <<'PY'
-import sys,re
-rows=[l.rstrip('\n') for l in open(sys.argv[1]) if l.startswith('|')]
-partial=sys.argv[2]=='1'
-path='/verif/seeded/MATRIX.md'
-head=["# Seeded changes x checks (each patch applied to /repo, ./check <property> quick, then reverted)","","| seed | property | applies | check exit | verdict | first violation key |","|---|---|---|---|---|---|"]
-old={}
-if partial:
-    try:
-        for l in open(path):
-            m=re.match(r'\| (C\d+-\d+) \|',l)
-            if m: old[m.group(1)]=l.rstrip('\n')
-    except FileNotFoundError: pass
-for r in rows:
-    old[re.match(r'\| (C\d+-\d+) \|',r).group(1)]=r
-def key(n):
-    a,b=n[1:].split('-'); return (int(a),int(b))
-foot=["","Rows marked *missed*: C12-6, C20-6, C01-16 and C03-15 are detected by the checks of the properties they actually break (C05/C18, C07, C10, C14)","rather than by the one they were written against (C01-16 needs the rebalancer to re-weight on ratings, C03-15 more distinct sources than the capacity:","both outside what C01 / C03 state); C19-3 and C19-8 concern peer addresses without a port or without an IP, which C19 as stated does not quantify","over (see each meta.json and DESIGN.md 5.2-5.8)."]
-open(path,'w').write('\n'.join(head+[old[k] for k in sorted(old,key=key)]+foot)+'\n')
-PY
+python3 $ROOT/tools/matrixmerge.py $OUT/rows $PARTIAL
 rm -rf $OUT
 git -C /repo status --short | head -3
